@@ -159,6 +159,26 @@ func (g *gen) caseProtoEntry(key []byte, md *store.KVMetadata, vLen int, hVal [3
 	}
 }
 
+func (g *gen) caseProtoDigests(l [][]byte, bucket string) {
+	back := schema.DigestsFromProto(l)
+	in, out := make([]string, len(l)), make([]string, len(back))
+	same := len(l) == len(back)
+	for i := range l {
+		in[i] = vk.Hex(l[i])
+	}
+	for i := range back {
+		out[i] = vk.Hex(back[i][:])
+		if i < len(l) && len(l[i]) == 32 && !bytes.Equal(l[i], back[i][:]) {
+			same = false
+		}
+	}
+	g.r.Case(fmt.Sprintf("CPDigests %s %s", vk.List(in), vk.List(out)),
+		map[string]any{"kind": "pdigests", "n": len(l), "violates": !same}, "proto-digests/"+bucket, len(l) > 0)
+	if !same {
+		g.finding("other", fmt.Sprintf("DigestsFromProto changed a 32-byte term or the number of terms (%d -> %d)", len(l), len(back)))
+	}
+}
+
 // genProtoConv: budget n conversions of each kind.
 func (g *gen) genProtoConv(n int) {
 	rng := g.r.Rng
@@ -251,5 +271,17 @@ func (g *gen) genProtoConv(n int) {
 			bucket = "vlen-outside-int32"
 		}
 		g.caseProtoEntry(vk.RandBytes(rng, []int{0, 1, 5, 32, 300}[rng.Intn(5)]), kmd, vl, hv, bucket)
+		if k%4 == 0 {
+			terms := make([][]byte, rng.Intn(6))
+			bucket = "32-byte-terms"
+			for i := range terms {
+				terms[i] = vk.RandBytes(rng, 32)
+				if k%8 == 0 && rng.Intn(2) == 0 {
+					terms[i] = vk.RandBytes(rng, dlens[rng.Intn(len(dlens))])
+					bucket = "odd-length-terms"
+				}
+			}
+			g.caseProtoDigests(terms, bucket)
+		}
 	}
 }
